@@ -145,3 +145,9 @@ JOBS.append(dict(name='c11_dict_builder_add', props=['C11'], entry='h_dict_build
                  bound='num_buckets == 1024 (as set by dict_builder_init), hash chain <= 2 entries, value_size <= 8, index array capacity <= 4 (realloc path included)',
                  functions=['dict_builder_add', 'dict_hash'], trusted=BUF_TRUST, timeout=300, tier='thorough', wip=True,
                  note='UNDECIDED: SAT times out at 300 s (two unrolled FNV hash computations + realloc model); not a finding'))
+
+JOBS.append(dict(name='c11_dict_builder_injective', props=['C11'], entry='h_dict_builder_inj', harness='harness/C11/dictionary.c',
+                 includes=['.'], loop_contracts=False, unwind=10, extra_sources=['stubs/plain_stubs.c'], defines=['CQV_DICT_INJ=1'],
+                 cbmc_flags=['--malloc-may-fail', '--malloc-fail-null'], level='bounded',
+                 bound='one existing entry in the hash chain, value and entry lengths <= 4, all bytes (single-bucket table: every pair collides)',
+                 functions=['dict_builder_add'], trusted=BUF_TRUST, timeout=600, est_s=30, wip=False))
